@@ -8,6 +8,7 @@ commit, finding F3) are its two instances.
 -/
 import FairModel.Lemmas.Moments
 import FairModel.Lemmas.MomentsRates
+import FairModel.Lemmas.MomentsMore
 
 namespace C06
 open Moments
@@ -377,6 +378,237 @@ theorem gamma_plus_eq_error_rate (ev : Ev) (rows : List Row) (hp : List Int) (e 
   rw [gamma_plus ev rows 1 erpUtil _ e g hobs, errRate_toBM _ rows hp hl hy hh, errRate_toBM _ rows hp hl hy hh]
   ring
 
+/-! ### sums over the groups of one event -/
+
+/-- the `+` entries of an event, weighted by `P(group | event)`, sum to `(r − 1)·mean_event(u)` — for `r = 1` they
+    are a vector with zero weighted sum (`groupsOf` = the groups observed with the event, i.e. exactly the groups
+    that have an index entry for it, `mem_groupsOf`) … -/
+theorem gamma_plus_weighted_sum (ev : Ev) (rows : List Row) (ratio : Rat) (ut : Util) (h : List Rat) (e g0 : String)
+    (hobs : Observed ev rows e g0) :
+    ((groupsOf ev rows e).map (fun g =>
+        (probEG ev rows e g / probE ev rows e) * gammaAt ev rows ratio ut h ⟨.plus, e, g⟩)).sum
+      = (ratio - 1) * meanOn (inE ev e) rows (predOf ut rows h) := by
+  have hn : (rows.length : Rat) ≠ 0 := by exact_mod_cast (rows_pos ev rows e g0 hobs).ne'
+  have he : (countE ev rows e : Rat) ≠ 0 := by exact_mod_cast (countE_pos ev rows e g0 hobs).ne'
+  obtain ⟨u, hu⟩ : ∃ u, u = predOf ut rows h := ⟨_, rfl⟩
+  obtain ⟨D, hD⟩ : ∃ D, D = dot (rows.map (fun r => ind (inE ev e r))) u := ⟨_, rfl⟩
+  rw [← hu]
+  have step : ∀ g ∈ groupsOf ev rows e,
+      (probEG ev rows e g / probE ev rows e) * gammaAt ev rows ratio ut h ⟨.plus, e, g⟩
+        = (ratio / (countE ev rows e : Rat)) * dot (rows.map (fun r => ind (inEG ev e g r))) u
+          + (-(D / (countE ev rows e : Rat) ^ 2)) * (countEG ev rows e g : Rat) := by
+    intro g hg
+    have hobs' := (mem_groupsOf ev rows e g).mp hg
+    have hg' : (countEG ev rows e g : Rat) ≠ 0 := by exact_mod_cast (countEG_pos ev rows e g hobs').ne'
+    rw [gamma_plus ev rows ratio ut h e g hobs', ← hu]
+    unfold meanOn probEG probE
+    simp only [countE, countEG] at he hg' ⊢
+    rw [← hD]
+    field_simp
+    ring
+  rw [List.map_congr_left step, sum_map_add, sum_map_mul_left, sum_map_mul_left, sum_groups_event,
+    sum_groups_count]
+  unfold meanOn
+  simp only [countE] at he ⊢
+  rw [← hD]
+  field_simp
+  ring
+
+/-- … and so do the `−` entries (`Σ_g P(g|e)·(r·mean_e − mean_{e,g}) = (r − 1)·mean_e`) -/
+theorem gamma_minus_weighted_sum (ev : Ev) (rows : List Row) (ratio : Rat) (ut : Util) (h : List Rat) (e g0 : String)
+    (hobs : Observed ev rows e g0) :
+    ((groupsOf ev rows e).map (fun g =>
+        (probEG ev rows e g / probE ev rows e) * gammaAt ev rows ratio ut h ⟨.minus, e, g⟩)).sum
+      = (ratio - 1) * meanOn (inE ev e) rows (predOf ut rows h) := by
+  have hn : (rows.length : Rat) ≠ 0 := by exact_mod_cast (rows_pos ev rows e g0 hobs).ne'
+  have he : (countE ev rows e : Rat) ≠ 0 := by exact_mod_cast (countE_pos ev rows e g0 hobs).ne'
+  obtain ⟨u, hu⟩ : ∃ u, u = predOf ut rows h := ⟨_, rfl⟩
+  obtain ⟨D, hD⟩ : ∃ D, D = dot (rows.map (fun r => ind (inE ev e r))) u := ⟨_, rfl⟩
+  rw [← hu]
+  have step : ∀ g ∈ groupsOf ev rows e,
+      (probEG ev rows e g / probE ev rows e) * gammaAt ev rows ratio ut h ⟨.minus, e, g⟩
+        = (-(1 / (countE ev rows e : Rat))) * dot (rows.map (fun r => ind (inEG ev e g r))) u
+          + (ratio * D / (countE ev rows e : Rat) ^ 2) * (countEG ev rows e g : Rat) := by
+    intro g hg
+    have hobs' := (mem_groupsOf ev rows e g).mp hg
+    have hg' : (countEG ev rows e g : Rat) ≠ 0 := by exact_mod_cast (countEG_pos ev rows e g hobs').ne'
+    rw [gamma_minus ev rows ratio ut h e g hobs', ← hu]
+    unfold meanOn probEG probE
+    simp only [countE, countEG] at he hg' ⊢
+    rw [← hD]
+    field_simp
+    ring
+  rw [List.map_congr_left step, sum_map_add, sum_map_mul_left, sum_map_mul_left, sum_groups_event,
+    sum_groups_count]
+  unfold meanOn
+  simp only [countE] at he ⊢
+  rw [← hD]
+  field_simp
+  ring
+
+/-- the groups summed over are exactly those with an index entry for the event, each once -/
+theorem groupsOf_spec (ev : Ev) (rows : List Row) (e g : String) :
+    (g ∈ groupsOf ev rows e ↔ (⟨.plus, e, g⟩ : Key) ∈ index ev rows) ∧ (groupsOf ev rows e).Nodup := by
+  refine ⟨?_, nodup_groupsOf ev rows e⟩
+  rw [mem_groupsOf, index_exact]
+
+/-! ### gamma is affine in the predictor -/
+
+/-- `γ(a·h + (1−a)·h') = a·γ(h) + (1−a)·γ(h')`, every entry, any rational `a` -/
+theorem gamma_affine (ev : Ev) (rows : List Row) (ratio : Rat) (ut : Util) (a : Rat) (h h' : List Rat) (k : Key)
+    (hl : h.length = rows.length) (hl' : h'.length = rows.length) :
+    gammaAt ev rows ratio ut (vadd (h.map (fun x => a * x)) (h'.map (fun x => (1 - a) * x))) k
+      = a * gammaAt ev rows ratio ut h k + (1 - a) * gammaAt ev rows ratio ut h' k := by
+  rw [gammaAt_lin ev rows ratio ut _ k (by simp [vadd, hl, hl']), gammaAt_lin ev rows ratio ut h k hl,
+    gammaAt_lin ev rows ratio ut h' k hl', dot_vadd_right _ _ _ (by simp [hl, hl']), dot_smul_right, dot_smul_right]
+  ring
+
+/-- the randomised predictor: for predictors `hs` with ANY weights `ws` summing to 1, gamma of the pointwise
+    mixture `Σ_j w_j·h_j` is the `ws`-mixture of the gammas (this is what makes `gamma(Q)` of
+    ExponentiatedGradient's `Q` the `weights_`-mixture of the stored per-predictor gammas) -/
+theorem gamma_mixture (ev : Ev) (rows : List Row) (ratio : Rat) (ut : Util) (ws : List Rat) (hs : List (List Rat))
+    (hlen : ws.length = hs.length) (hall : ∀ h ∈ hs, h.length = rows.length) (hsum : ws.sum = 1) :
+    gamma ev rows ratio ut (mix rows.length ws hs)
+      = (index ev rows).map (fun k => dot ws (hs.map (fun h => gammaAt ev rows ratio ut h k))) := by
+  unfold gamma
+  exact List.map_congr_left (fun k _ => gammaAt_mix ev rows ratio ut ws hs k hlen hall hsum)
+
+/-- the mixture is the pointwise weighted sum: two predictors -/
+example : mix 3 [1/4, 3/4] [[1, 0, 1], [0, 0, 1]] = [1/4, 0, 1] := by decide +kernel
+
+/-! ### constant predictors -/
+
+/-- for DP / TPR / FPR / EO (utility = the prediction) a constant predictor `c` has `(r − 1)·c` in every entry of an
+    observed pair, `+` and `−` alike (0 for a difference bound) -/
+theorem gamma_constant_predictor (ev : Ev) (rows : List Row) (ratio c : Rat) (s : Sign) (e g : String)
+    (hobs : Observed ev rows e g) :
+    gammaAt ev rows ratio defaultUtil (List.replicate rows.length c) ⟨s, e, g⟩ = (ratio - 1) * c := by
+  have h1 : (rows.filter (inEG ev e g)).length ≠ 0 := (countEG_pos ev rows e g hobs).ne'
+  have h2 : (rows.filter (inE ev e)).length ≠ 0 := (countE_pos ev rows e g hobs).ne'
+  cases s
+  · rw [gamma_plus ev rows ratio defaultUtil _ e g hobs, pred_default rows _ (by simp),
+      meanOn_const _ rows c h1, meanOn_const _ rows c h2]; ring
+  · rw [gamma_minus ev rows ratio defaultUtil _ e g hobs, pred_default rows _ (by simp),
+      meanOn_const _ rows c h1, meanOn_const _ rows c h2]; ring
+
+/-! ### the regression losses: declared range, 0/1 loss, group means within the range, multiplier lookup -/
+
+/-- what the code guarantees about the clipped losses, for ALL `min_val`, `max_val`, labels and predictions, on numpy
+    arrays (`eval`) and on pandas Series (`evalS`, the call made by `gamma`) alike: the value lies between the loss
+    object's own `min` and `max` attributes (as lifted: 0 and `(max_val − min_val)²` resp. `|max_val − min_val|`).
+    For `max_val < min_val` numpy clips both arguments to `max_val` (loss 0) and pandas clips into `[max_val, min_val]`. -/
+theorem loss_in_declared_range (l : Loss) (y p : Rat) :
+    l.declMin ≤ l.eval y p ∧ l.eval y p ≤ l.declMax ∧ l.declMin ≤ l.evalS y p ∧ l.evalS y p ≤ l.declMax := by
+  have key : ∀ lo hi a b : Rat, ((lo ≤ a ∧ a ≤ hi ∧ lo ≤ b ∧ b ≤ hi) ∨ (hi ≤ a ∧ a ≤ lo ∧ hi ≤ b ∧ b ≤ lo)) →
+      (0 : Rat) ≤ (a - b) * (a - b) ∧ (a - b) * (a - b) ≤ (hi - lo) * (hi - lo) ∧ |a - b| ≤ |hi - lo| := by
+    intro lo hi a b hab
+    refine ⟨mul_self_nonneg _, ?_, ?_⟩
+    · rcases hab with ⟨h1, h2, h3, h4⟩ | ⟨h1, h2, h3, h4⟩ <;> nlinarith
+    · rcases hab with ⟨h1, h2, h3, h4⟩ | ⟨h1, h2, h3, h4⟩
+      · rw [abs_of_nonneg (by linarith : (0 : Rat) ≤ hi - lo), abs_le]; constructor <;> linarith
+      · rw [abs_of_nonpos (by linarith : hi - lo ≤ (0 : Rat)), abs_le]; constructor <;> linarith
+  have hR : ∀ lo hi : Rat, ((lo ≤ MomentsSrc.clipR y lo hi ∧ MomentsSrc.clipR y lo hi ≤ hi ∧
+        lo ≤ MomentsSrc.clipR p lo hi ∧ MomentsSrc.clipR p lo hi ≤ hi) ∨
+      (hi ≤ MomentsSrc.clipR y lo hi ∧ MomentsSrc.clipR y lo hi ≤ lo ∧
+        hi ≤ MomentsSrc.clipR p lo hi ∧ MomentsSrc.clipR p lo hi ≤ lo)) := by
+    intro lo hi
+    rcases le_or_gt lo hi with h | h
+    · left; exact ⟨((clipR_cases y lo hi).1 h).1, ((clipR_cases y lo hi).1 h).2,
+        ((clipR_cases p lo hi).1 h).1, ((clipR_cases p lo hi).1 h).2⟩
+    · right; rw [(clipR_cases y lo hi).2 h, (clipR_cases p lo hi).2 h]; exact ⟨le_refl _, h.le, le_refl _, h.le⟩
+  have hS : ∀ lo hi : Rat, ((lo ≤ MomentsSrc.clipS y lo hi ∧ MomentsSrc.clipS y lo hi ≤ hi ∧
+        lo ≤ MomentsSrc.clipS p lo hi ∧ MomentsSrc.clipS p lo hi ≤ hi) ∨
+      (hi ≤ MomentsSrc.clipS y lo hi ∧ MomentsSrc.clipS y lo hi ≤ lo ∧
+        hi ≤ MomentsSrc.clipS p lo hi ∧ MomentsSrc.clipS p lo hi ≤ lo)) := by
+    intro lo hi
+    rcases le_or_gt lo hi with h | h
+    · left; rw [(clipS_cases y lo hi).1 h, (clipS_cases p lo hi).1 h]
+      exact ⟨((clipR_cases y lo hi).1 h).1, ((clipR_cases y lo hi).1 h).2,
+        ((clipR_cases p lo hi).1 h).1, ((clipR_cases p lo hi).1 h).2⟩
+    · right; exact ⟨((clipS_cases y lo hi).2 h).1, ((clipS_cases y lo hi).2 h).2,
+        ((clipS_cases p lo hi).2 h).1, ((clipS_cases p lo hi).2 h).2⟩
+  cases l with
+  | square lo hi =>
+    simp only [Loss.eval, Loss.evalS, Loss.declMin, Loss.declMax, MomentsSrc.squareLoss, MomentsSrc.squareLossS,
+      LossRange.squareMin, LossRange.squareMax]
+    exact ⟨(key lo hi _ _ (hR lo hi)).1, (key lo hi _ _ (hR lo hi)).2.1, (key lo hi _ _ (hS lo hi)).1,
+      (key lo hi _ _ (hS lo hi)).2.1⟩
+  | absolute lo hi =>
+    simp only [Loss.eval, Loss.evalS, Loss.declMin, Loss.declMax, MomentsSrc.absoluteLoss, MomentsSrc.absoluteLossS,
+      LossRange.absoluteMin, LossRange.absoluteMax, absR_eq, lr_absR_eq]
+    exact ⟨abs_nonneg _, (key lo hi _ _ (hR lo hi)).2.2, abs_nonneg _, (key lo hi _ _ (hS lo hi)).2.2⟩
+
+/-- for `min_val ≤ max_val` the two container paths agree (so `loss_values` describes `gamma`'s losses too) … -/
+theorem evalS_eq_eval (l : Loss) (y p : Rat) (h : match l with | .square lo hi => lo ≤ hi | .absolute lo hi => lo ≤ hi) :
+    l.evalS y p = l.eval y p := by
+  cases l with
+  | square lo hi =>
+    simp only [Loss.eval, Loss.evalS, MomentsSrc.squareLoss, MomentsSrc.squareLossS,
+      (clipS_cases y lo hi).1 h, (clipS_cases p lo hi).1 h]
+  | absolute lo hi =>
+    simp only [Loss.eval, Loss.evalS, MomentsSrc.absoluteLoss, MomentsSrc.absoluteLossS,
+      (clipS_cases y lo hi).1 h, (clipS_cases p lo hi).1 h]
+
+/-- … but for `max_val < min_val` (accepted by the constructors) the value of `loss.eval` depends on the container
+    type: 0 on numpy arrays, 1 on pandas Series for label 0 and prediction 1 under `SquareLoss(1, 0)`
+    (finding F21, replayed in corpus/C06) -/
+theorem eval_container_dependent :
+    (Loss.square 1 0).eval 0 1 = 0 ∧ (Loss.square 1 0).evalS 0 1 = 1 ∧
+    (Loss.absolute 1 0).eval 0 1 = 0 ∧ (Loss.absolute 1 0).evalS 0 1 = 1 := by
+  refine ⟨?_, ?_, ?_, ?_⟩ <;> decide +kernel
+
+/-- `ZeroOneLoss` (= `AbsoluteLoss(0, 1)`, constructor arguments lifted): for a 0/1 label and a prediction in [0,1]
+    it is `|y − p|` on either container, i.e. the 0/1 loss on hard predictions -/
+theorem zero_one_loss (y p : Rat) (hy : y = 0 ∨ y = 1) (hp : 0 ≤ p ∧ p ≤ 1) :
+    (Loss.absolute LossRange.zeroOneLo LossRange.zeroOneHi).eval y p = |y - p| ∧
+    (Loss.absolute LossRange.zeroOneLo LossRange.zeroOneHi).evalS y p = |y - p| ∧
+    (p = 0 ∨ p = 1 → (Loss.absolute LossRange.zeroOneLo LossRange.zeroOneHi).eval y p = if y = p then 0 else 1) := by
+  have hc : ∀ x : Rat, 0 ≤ x → x ≤ 1 → MomentsSrc.clipR x 0 1 = x := by
+    intro x h0 h1
+    unfold MomentsSrc.clipR
+    have a : ¬ x < 0 := not_lt.mpr h0
+    have b : ¬ (1 : Rat) < x := not_lt.mpr h1
+    simp [a, b]
+  have hyc : MomentsSrc.clipR y 0 1 = y := by rcases hy with rfl | rfl <;> exact hc _ (by norm_num) (by norm_num)
+  have hS := evalS_eq_eval (.absolute LossRange.zeroOneLo LossRange.zeroOneHi) y p
+    (by simp [LossRange.zeroOneLo, LossRange.zeroOneHi])
+  rw [hS]
+  simp only [Loss.eval, MomentsSrc.absoluteLoss, absR_eq, LossRange.zeroOneLo, LossRange.zeroOneHi, hyc,
+    hc p hp.1 hp.2, true_and]
+  rintro (rfl | rfl) <;> rcases hy with rfl | rfl <;> norm_num
+
+/-- every entry of `BoundedGroupLoss.gamma` (the plain, unweighted mean of the loss over exactly the group's rows,
+    `bgl_gamma`) lies in the loss's declared `[min, max]` -/
+theorem bgl_gamma_in_declared_range (l : Loss) (rows : List LRow) (h : List Rat) (g : String)
+    (hl : h.length = rows.length) (hg : ∃ r ∈ rows, r.g = g) :
+    l.declMin ≤ bglGammaAt l rows h g ∧ bglGammaAt l rows h g ≤ l.declMax := by
+  have hcnt : 0 < (rows.filter (fun r => r.g == g)).length := by
+    obtain ⟨r, hr, hrg⟩ := hg
+    exact List.length_pos_of_mem (List.mem_filter.mpr ⟨hr, by simp [hrg]⟩)
+  have hc : (0 : Rat) < ((rows.filter (fun r => r.g == g)).length : Rat) := by exact_mod_cast hcnt
+  have hv : ∀ x ∈ lossOf l rows h, l.declMin ≤ x ∧ x ≤ l.declMax := by
+    intro x hx
+    unfold lossOf at hx
+    obtain ⟨i, hidx, rfl⟩ := List.mem_iff_getElem.mp hx
+    simp only [List.getElem_zipWith]
+    exact ⟨(loss_in_declared_range l _ _).2.2.1, (loss_in_declared_range l _ _).2.2.2⟩
+  obtain ⟨b1, b2⟩ := dot_ind_bounds (fun r : LRow => r.g == g) rows (lossOf l rows h) l.declMin l.declMax
+    (by simp [lossOf, hl]) hv
+  rw [(bgl_gamma l rows h g).1]
+  constructor
+  · rw [le_div_iff₀ hc]; exact b1
+  · rw [div_le_iff₀ hc]; exact b2
+
+/-- `signed_weights(λ)` of a loss moment: row `i` gets `λ_{g_i} / P(g_i)`, where `λ_{g}` is the multiplier at the
+    position of `g` in the (sorted, duplicate-free) index -/
+theorem bgl_signed_weights_entry (rows : List LRow) (lam : List Rat) (hlen : lam.length = (bglIndex rows).length)
+    (i : Nat) (hi : i < (bglIndex rows).length) :
+    bglSignedWeights rows (some lam)
+      = rows.map (fun r => lookup (bglIndex rows) lam r.g / probG rows r.g) ∧
+    lookup (bglIndex rows) lam ((bglIndex rows)[i]) = lam[i]'(by rw [hlen]; exact hi) :=
+  ⟨by simp [bglSignedWeights, MomentsSrc.bglAdjust],
+   lookup_get (bglIndex rows) (nodup_sortedDistinct _ _) lam hlen i hi⟩
+
 /-! ### non-vacuity: concrete inputs meeting the hypotheses, evaluated by the kernel -/
 
 def ex1 : List Row :=
@@ -395,5 +627,16 @@ example : errGamma 2 3 [1, 0, 1, 0] [0, 1, 1, 0] = 5/4 := by decide +kernel
 example : (∀ r ∈ ex1, r.y = 0 ∨ r.y = 1) := by decide +kernel
 example : Observed (eventOf .tpr) ex1 (MomentsSrc.ctrlFormat "y" (MomentsSrc.labelEvent 1)) "a" :=
   ⟨⟨1, "a", some "y"⟩, by decide +kernel⟩
+
+example : groupsOf (eventOf .tpr) ex1 "control=x,label=1" = ["a", "b"] := by decide +kernel
+example : ((groupsOf (eventOf .eo) ex1 "control=x,label=1").map (fun g =>
+    (probEG (eventOf .eo) ex1 "control=x,label=1" g / probE (eventOf .eo) ex1 "control=x,label=1")
+      * gammaAt (eventOf .eo) ex1 (1/2) defaultUtil h1 ⟨.plus, "control=x,label=1", g⟩)).sum
+    = (1/2 - 1) * meanOn (inE (eventOf .eo) "control=x,label=1") ex1 h1 := by decide +kernel
+example : gammaAt (eventOf .eo) ex1 (1/2) defaultUtil (List.replicate 6 (1/4)) ⟨.minus, "control=x,label=1", "b"⟩
+    = (1/2 - 1) * (1/4) := by decide +kernel
+example : (Loss.square 1 0).declMax = 1 ∧ (Loss.absolute 2 (-1)).declMax = 3 := by constructor <;> decide +kernel
+example : bglGamma (.square 1 0) [⟨0, "a"⟩, ⟨1, "b"⟩] [1, 1/2] = [1, 1/4] := by decide +kernel
+example : lookup (bglIndex [⟨1, "b"⟩, ⟨0, "a"⟩, ⟨1, "b"⟩]) [5, 7] "b" = 7 := by decide +kernel
 
 end C06
